@@ -139,33 +139,51 @@ def week_expect(wk):
             'b5': set(A.btuple(b) for b in wk['b5']), 'local': A.tdata(wk['local'])}
 
 
+def xnum(x, d):
+    """A report's X field as a numerator over d, or None."""
+    if not isinstance(x, (int, float)):
+        return None
+    y = x * d
+    return int(y) if y == int(y) and 0 <= y <= d else None
+
+
 def check_vector(ctx, v, rec, later):
-    """Compare one single-run case with the outputs ApprovalVec demanded.
-    `later`: list collecting observations to be decided by ApprovalTrace
-    instead (the report's X is not the injected one)."""
-    d, x, cfg = v['d'], v['x'], v['cfg']
-    detail = {'vector': {'fam': v['fam'], 'cfg': cfg, 'files': v['files'], 'x': x, 'd': d}}
+    """Compare one single-run case with the outputs ApprovalVec demanded.  The
+    draws of the run return v['xs'] in turn; every report is judged relative
+    to the X it carries itself ("the report's random X"), for which TLC gave the
+    demanded outputs.  `later`: list collecting observations to be decided by
+    ApprovalTrace instead (the report's X is none of the injected ones)."""
+    d, cfg = v['d'], v['cfg']
+    detail = {'vector': {'fam': v['fam'], 'cfg': cfg, 'files': v['files'], 'xs': v['xs'], 'd': d}}
     good = True
     if rec.get('err'):
         viol(ctx, '%s:run:%s' % (P, rec['err'].split(':')[0]), dict(detail, err=rec['err']), 'upload.Run: ' + rec['err'])
         return False
-    dates = {A.week_end(wk['w']).isoformat(): wk for wk in v['weeks']}
+    expect = {}
+    for wk in v['weeks']:
+        expect.setdefault(A.week_end(wk['w']).isoformat(), {})[wk['x']] = wk
     seen = {}
     for q in rec.get('requests') or []:
         date = q['path'].lstrip('/')
-        if q['method'] != 'POST' or date not in dates or q.get('query') or date in seen:
+        if q['method'] != 'POST' or date not in expect or q.get('query') or date in seen:
             viol(ctx, '%s:request:unexpected' % P, dict(detail, request=q), 'unexpected request %s %s' % (q['method'], q['path']))
             good = False
             continue
         seen[date] = q
-    for date, wk in dates.items():
-        exp = week_expect(wk)
+    for date, byx in expect.items():
         q = seen.get(date)
         det = dict(detail, week=date)
+        loc = (rec.get('local') or {}).get('local.' + date + '.json')
+        lb = A.Body(loc) if loc is not None else None
+        lx = xnum(lb.x, d) if lb is not None else None
+        any_wk = byx[v['x']]
         if q is None:
-            if v['mustsend'] and exp['up5'] and exp['up3']:
-                viol(ctx, '%s:upload:no-report-although-approved-data' % P, dict(det, expected=sorted(exp['up5'])),
-                              'no report was posted for %s although approved data with rate >= X exists and X lies below the sampling rate' % date)
+            # the X of this week's report is the one its local copy carries
+            wk = byx.get(lx, any_wk)
+            exp = week_expect(wk)
+            if wk['mustsend'] and exp['up5'] and exp['up3']:
+                viol(ctx, '%s:upload:no-report-although-approved-data' % P, dict(det, expected=sorted(exp['up5']), X=wk['x'] / d),
+                     'no report was posted for %s although approved data with rate >= X exists and X lies below the sampling rate' % date)
                 good = False
         else:
             body = A.Body(q['body'])
@@ -175,34 +193,42 @@ def check_vector(ctx, v, rec, later):
             if body.week != date:
                 viol(ctx, '%s:body:week-differs-from-url' % P, dict(det, body=q['body']), 'report Week %r posted to %s' % (body.week, q['path']))
                 good = False
-            if body.x != x / d:
-                later.append((v, wk, body))
+            bx = xnum(body.x, d)
+            if bx not in byx:
+                later.append((v, any_wk, body))
             else:
-                good &= report_diff(ctx, 'upload', cfg, d, x, exp, body, det)
+                exp = week_expect(byx[bx])
+                good &= report_diff(ctx, 'upload', cfg, d, bx, exp, body, dict(det, local_report_X=None if lb is None else lb.x, draws=rec.get('draws')))
                 good &= leak_scan(ctx, q, exp['local'], exp['up3'] | exp['up5'], exp['b3'] | exp['b5'], v['files'], det)
+            if lb is not None and lb.x != body.x:
+                # one weekly report, one X: not a clause of the statement by itself (the filter
+                # relative to the posted X is what decides), recorded as a divergence
+                ctx.warn('MODEL-DIVERGENCE the report posted for %s carries X=%r, local.%s.json of the same run X=%r' % (date, body.x, date, lb.x))
+                ctx.cov['divergences'] += 1
             # the bytes kept on the machine are the bytes posted
             kept = (rec.get('upload') or {}).get(date + '.json')
             if kept is not None and kept != q['body']:
                 viol(ctx, '%s:upload:kept-copy-differs-from-posted-body' % P, dict(det, kept=kept, body=q['body']),
-                              'upload/%s.json differs from the body that was posted' % date)
+                     'upload/%s.json differs from the body that was posted' % date)
                 good = False
-        loc = (rec.get('local') or {}).get('local.' + date + '.json')
-        if loc is None:
-            if exp['local']:
+        exp_local = A.tdata(any_wk['local'])
+        if lb is None:
+            if exp_local:
                 ctx.warn('no local.%s.json after the run of vector %s' % (date, v['fam']))
-        else:
-            lb = A.Body(loc)
-            if lb.data != exp['local']:
-                t = sorted(lb.data ^ exp['local'])[0]
-                viol(ctx, '%s:local-report:%s' % (P, 'value-differs-from-sum' if any(u[0] == t[0] and u[1] == t[1] for u in exp['local']) else 'data-differs'),
-                              dict(det, datum=t, local=loc), 'local.%s.json is not the per-build sum of the week\'s files (%r)' % (date, t))
-                good = False
+        elif lb.data != exp_local:
+            t = sorted(lb.data ^ exp_local)[0]
+            viol(ctx, '%s:local-report:%s' % (P, 'value-differs-from-sum' if any(u[0] == t[0] and u[1] == t[1] for u in exp_local) else 'data-differs'),
+                 dict(det, datum=t, local=loc), 'local.%s.json is not the per-build sum of the week\'s files (%r)' % (date, t))
+            good = False
     return good
 
 
 def run(ctx):
     ctx.assumptions += [
-        'rates, SampleRate and X are multiples of 1/8 (vectors) or 1/1024 (random half), hence exact float64 values; X is chosen by replacing crypto/rand.Reader',
+        'rates, SampleRate and X are multiples of 1/8 (vectors) or 1/1024 (random half), hence exact float64 values; X is chosen by replacing crypto/rand.Reader by a reader that, per uploader run, returns a '
+        'SEQUENCE of distinct values (k-th draw of the run = k-th value); every report is judged relative to the X field it carries itself',
+        'that the posted report and local.<week>.json of one run carry the same X is recorded as a divergence warning, not as a violation (the statement speaks of "the report\'s random X"; what decides is the filter relative to the posted X)',
+        'histories (ApprovalHist) use one X value per run',
         'configurations outside the domain of the statement are not generated: a program listed twice, the same expanded counter name or stack name listed twice for a program, '
         'counter entries that are not <plain name> or <chart>:{<bucket>,...} with non-empty buckets, stack entries containing a newline',
         'C01 approves builds on program/version/Go version; a report that additionally drops builds whose GOOS/GOARCH the configuration does not list (the reading of C11) is accepted too',
@@ -220,7 +246,7 @@ def run(ctx):
     ctx.log('vectors:', len(vecs))
     cases = []
     for i, v in enumerate(vecs):
-        cases.append({'id': i, 'steps': [A.step_of(v['cfg'], v['d'], v['files'], v['x'])]})
+        cases.append({'id': i, 'steps': [A.step_of(v['cfg'], v['d'], v['files'], v['x'], xs=v['xs'])]})
     nvec = len(cases)
 
     # ---- 2. model -> code: histories with leftover reports ----------------------------
@@ -235,7 +261,7 @@ def run(ctx):
     nrand = ctx.pick(400, 6000)
     rcases = [A.rand_case(rng, A.D_RND) for _ in range(nrand)]
     for k, c in enumerate(rcases):
-        cases.append({'id': nvec + nhist + k, 'steps': [A.step_of(c['cfg'], A.D_RND, c['files'], c['x'])]})
+        cases.append({'id': nvec + nhist + k, 'steps': [A.step_of(c['cfg'], A.D_RND, c['files'], c['x'], xs=c['xs'])]})
 
     recs, rc, out = ctx.run_harness('./internal/verifh/c01', 'TestVerifC01Run', inp={'cases': cases}, timeout=2400)
     summ = [r for r in recs if r.get('kind') == 'summary']
@@ -273,7 +299,8 @@ def run(ctx):
         raise Infra('the uploader posted nothing for any vector: the harness does not drive it')
     v = vecs[len(vecs) // 3]
     ctx.sample({'kind': 'vector', 'fam': v['fam'], 'config': A.concrete_cfg(v['cfg'], v['d']), 'X': v['x'] / v['d'],
-                'files': [A.concrete_file(f) for f in v['files']][:2], 'demanded': sorted(A.tdata(sorted(v['weeks'], key=lambda w: w['w'])[0]['up3']))[:6]})
+                'files': [A.concrete_file(f) for f in v['files']][:2], 'draws_return': [y / v['d'] for y in v['xs']],
+                'demanded': sorted(A.tdata(sorted(v['weeks'], key=lambda w: (w['w'], w['x'] != v['x']))[0]['up3']))[:6]})
 
     # ---- histories ----------------------------------------------------------------------------
     okh = check_histories(ctx, hcfgs, vers, behs, by, nvec)
@@ -413,7 +440,12 @@ def observe_random(ctx, c, rec):
     acfg, afiles = A.abs_cfg(c['cfg']), A.abs_files(c['files'])
     for w in weeks:
         date = A.week_end(w).isoformat()
-        o = {'kind': 'upload', 'sem': 'c01', 'cfg': acfg, 'files': afiles, 'w': w, 'x': c['x'], 'sent': w in reqs, 'progs': [], 'data': []}
+        loc = (rec.get('local') or {}).get('local.' + date + '.json')
+        lb = A.Body(loc) if loc is not None else None
+        lx = xnum(lb.x, A.D_RND) if lb is not None else None
+        # a week's report is judged relative to the X it carries; when nothing was posted that is
+        # the X of its local copy
+        o = {'kind': 'upload', 'sem': 'c01', 'cfg': acfg, 'files': afiles, 'w': w, 'x': c['x'] if lx is None else lx, 'sent': w in reqs, 'progs': [], 'data': []}
         if w in reqs:
             body = A.Body(reqs[w]['body'])
             for pr in body.problems:
@@ -428,10 +460,11 @@ def observe_random(ctx, c, rec):
             o['progs'] = [A.bdict(b) for b in sorted(body.progs)]
             o['data'] = A.abs_data(body.data)
             o['_body'] = body
+            if lb is not None and lb.x != body.x:
+                ctx.warn('MODEL-DIVERGENCE the report posted for %s carries X=%r, local.%s.json of the same run X=%r' % (date, body.x, date, lb.x))
+                ctx.cov['divergences'] += 1
         out.append(o)
-        loc = (rec.get('local') or {}).get('local.' + date + '.json')
-        if loc is not None:
-            lb = A.Body(loc)
+        if lb is not None:
             out.append({'kind': 'local', 'files': afiles, 'w': w, 'data': A.abs_data(lb.data), '_body': lb})
     for o in out:
         o.pop('_body', None)
